@@ -5,23 +5,27 @@ Require Import Coq.Strings.String.
 Require Import Base.Bytes Gen.TextTab Text.Escape Text.EscapeProofs Text.Codepage Text.CodepageProofs Text.CodepageRoundtrip.
 Local Open Scope N_scope.
 
-(* round trip, all lengths, all orders of codepage switches: text that the encoder handles
-   safely (no caret, every character in some codepage, no character whose encoding ends in 0x5E
-   directly before a marker letter) survives encode-then-decode unchanged *)
+(* round trip, all lengths, all orders of codepage switches, carets included: every string the encoder
+   handles (every non-ASCII character in some codepage; a caret that is not the second half of an escaped
+   caret is followed neither by a codepage letter other than the kept ^8 nor by a character that needs a
+   codepage switch) survives encode-then-decode unchanged.  No condition on trail bytes: since 68d499a the
+   decoder's scan takes both bytes of a double-byte character together. *)
 Theorem c10_roundtrip : forall enc dec,
   (forall l c w, enc l c = Some w -> exists b1, 128 <= b1 /\ (w = [b1] \/ exists b2, w = [b1; b2])) ->
   (forall l, dec l [] = []) ->
   (forall l b r, is_ascii b = true -> dec l (b :: r) = b :: dec l r) ->
   (forall l c w r, enc l c = Some w -> dec l (w ++ r) = c :: dec l r) ->
-  forall s, safe enc gen_default_codepage s = true ->
+  (forall l c b1 b2, enc l c = Some [b1; b2] -> lead l b1 = true) ->
+  (forall l c b1, enc l c = Some [b1] -> lead l b1 = false) ->
+  (forall bs, dec gen_propagate_letter bs = dec gen_default_codepage bs) ->
+  forall s, safe enc gen_default_codepage false s = true ->
   to_lossy_string dec (to_lossy_bytes enc s) = s.
 Proof. exact roundtrip. Qed.
 
-(* [safe] holds whenever no caret occurs, every character is encodable, and no character of the
-   string has an encoding ending in 0x5E (the known class is the complement of this) *)
-Theorem c10_safe_outside_known_class : forall enc s cur,
-  Forall (fun c => is_caret c = false /\ encodable enc c /\ no_5e_trail enc c) s -> safe enc cur s = true.
-Proof. exact safe_sufficient. Qed.
+(* in particular every caret-free string whose characters exist in some codepage *)
+Theorem c10_caret_free_text_is_safe : forall enc s cur,
+  Forall (fun c => is_caret c = false /\ encodable enc c) s -> safe enc cur false s = true.
+Proof. exact safe_caret_free. Qed.
 
 (* pure ASCII passes through byte for byte, both ways *)
 Theorem c10_ascii_passthrough_bytes : forall enc s, forallb is_ascii s = true -> to_lossy_bytes enc s = s.
@@ -29,7 +33,7 @@ Proof. exact ascii_passthrough_bytes. Qed.
 Theorem c10_ascii_passthrough_string : forall dec,
   (forall l bs, forallb is_ascii bs = true -> dec l bs = bs) ->
   forall bs, forallb is_ascii bs = true -> no_marker bs = true -> to_lossy_string dec bs = bs.
-Proof. exact ascii_passthrough_string. Qed.
+Proof. intros dec. exact (ascii_passthrough_string (fun _ _ => None) dec lead_ascii). Qed.
 
 (* a character that exists in no codepage becomes '?' and its neighbours are encoded exactly as
    if it were not there *)
